@@ -14,8 +14,8 @@ from . import build as _build
 from . import tlc as _tlc
 
 VERIF = Path(__file__).resolve().parent.parent
-EVID = VERIF / "evidence"
-REPLAYS = VERIF / "replays"
+EVID = Path(os.environ.get("VERIF_EVIDENCE_DIR", str(VERIF / "evidence")))
+REPLAYS = Path(os.environ.get("VERIF_REPLAY_DIR", str(VERIF / "replays")))
 WORK = VERIF / ".work"
 KNOWN = VERIF / "known_findings.json"
 
